@@ -15,12 +15,13 @@ scal   = `_as_scalars` of the call: ~ | 0 | 1
 
 value  = N | I<int> | T<cps>
 arg    = S value | L n value^n | Z n value^n
-cond   = T <field> <op> arg | P <field> arg | A k <field> arg | B k | O n cond^n m (<name> arg)^m
+cond   = T <field> <op> arg | P <field> arg | A k <field> arg | B k | O n cond^n m (<name> arg)^m | R <text>
          (k: which non-str operation / malformed object the adapter builds; no meaning in the model)
 call   = n (~ | cond)^n m (<name> arg)^m
 group  = ~ | <cps>
 order  = ~ | k (<col> 0|1)^k
-table  = nrows value^((n+1)*nrows)     (the first column holds the record id)
+table  = k <static text>^k nrows value^((n+1+k)*nrows)   (first column: the record id; last k: the value SQLite
+         computes for each static condition text on that row — supplied by the harness)
 method = list | one | one_or_none | tone_or_none
 v      = how the adapter spells the call (tuples or lists, `all` or `list`, `_as_scalars`,
          default or per-call ORDER BY, `SqlMethodT`): no meaning in the model
@@ -90,6 +91,7 @@ def pCond : Nat → P Cond
     | some (f, ts1) => (pArg ts1).map fun (a, r) => (.badOp f a, r)
     | none => none
   | _ + 1, "B" :: _ :: ts => some (.badShape, ts)
+  | _ + 1, "R" :: ts => (pStr ts).map fun (t, r) => (.raw t, r)
   | fuel + 1, "O" :: ts =>
     match pCounted (pCond fuel) ts with
     | some (cs, ts1) => (pCounted pKw ts1).map fun (kw, r) => (.or cs kw, r)
@@ -231,7 +233,10 @@ def handle (line : String) : String :=
     | some (sc, ts1) =>
       match pMethod ts1 with
       | some (m, ts2) =>
-        match pTable sc.cols ts2 with
+        match pCounted pStr ts2 with
+        | none => "bad-op"
+        | some (atoms, ts2) =>
+        match pTable (sc.cols ++ atoms) ts2 with
         | some (rows, []) =>
           match run sc.pct sc.st sc.order sc.call m rows with
           | .error e => showFail e
